@@ -50,7 +50,7 @@ func c14genPlan(rt *rapid.T) c14plan {
 	for i := 0; i < n; i++ {
 		id++
 		c := rapid.IntRange(0, p.NClients-1).Draw(rt, fmt.Sprintf("c%d", i))
-		k := rapid.SampledFrom([]string{"getmsgs", "getmsgs", "biglist", "pm-victim", "pm-victim", "broadcast", "newsget", "newslist", "userlist", "keepalive", "chat", "postboard", "clientinfo", "clientinfo", "invite", "fileinfo", "acct-stale-rename", "acct-create", "acct-create", "acct-delete", "invite-to-chat", "invite-to-chat", "chat-subject", "unknown-chat", "unknown-chat"}).Draw(rt, fmt.Sprintf("k%d", i))
+		k := rapid.SampledFrom([]string{"getmsgs", "getmsgs", "biglist", "pm-victim", "pm-victim", "broadcast", "newsget", "newslist", "userlist", "keepalive", "chat", "postboard", "clientinfo", "clientinfo", "invite", "fileinfo", "acct-stale-rename", "acct-create", "acct-create", "acct-delete", "invite-to-chat", "invite-to-chat", "chat-subject", "unknown-chat", "unknown-chat", "kick-unknown"}).Draw(rt, fmt.Sprintf("k%d", i))
 		t := hlref.Tran{ID: id}
 		big := func(label string) []byte {
 			return bytes.Repeat([]byte{byte('A' + i%26)}, rapid.SampledFrom([]int{100, 33000, 40000, 60000}).Draw(rt, label))
@@ -88,6 +88,12 @@ func c14genPlan(rt *rapid.T) c14plan {
 			t.Type, t.Fields = hlref.TranInviteToChat, []hlref.Field{fld(hlref.FUserID, hlref.BE16((c+2)%p.NClients+1)), fld(hlref.FChatID, []byte{0, 0, 0, 0})}
 		case "chat-subject":
 			t.Type, t.Fields = hlref.TranSetChatSubject, []hlref.Field{fld(hlref.FChatID, []byte{0, 0, 0, 0}), sfld(hlref.FChatSubject, "subject")}
+		case "kick-unknown": // a disconnect request naming a user id nobody has (the user just left): sent by the stranger like the unknown-chat kinds
+			fs := []hlref.Field{fld(hlref.FUserID, hlref.BE16(rapid.SampledFrom([]int{0, 200, 999, 65535}).Draw(rt, fmt.Sprintf("kid%d", i))))}
+			if rapid.Bool().Draw(rt, fmt.Sprintf("kopt%d", i)) {
+				fs = append(fs, fld(hlref.FOptions, hlref.BE16(rapid.IntRange(1, 2).Draw(rt, fmt.Sprintf("kban%d", i)))))
+			}
+			t.Type, t.Fields = hlref.TranDisconnectUser, fs
 		case "unknown-chat": // a request naming a chat the server does not know: the sender may be dropped, everybody else is still answered
 			switch rapid.SampledFrom([]string{"send", "subject", "leave", "join"}).Draw(rt, fmt.Sprintf("u%d", i)) {
 			case "send":
@@ -257,7 +263,7 @@ func c14run(rt *rapid.T, p c14plan, sequential bool) (res c14result) {
 					r.Tran.Fields[i] = fld(hlref.FChatID, chatID)
 				}
 			}
-			if r.Kind == "unknown-chat" {
+			if r.Kind == "unknown-chat" || r.Kind == "kick-unknown" {
 				delete(sent[r.Client], r.Tran.ID)
 				stranger.SendAsync(r.Tran.Encode())
 			} else {
